@@ -32,7 +32,7 @@ func VerifC05_e1_do() {
 		detail = &d
 	}
 	to, te, fa := nondetBool("timeout"), nondetBool("temporary"), nondetBool("fault")
-	kind := nondetChoice("error-kind", 11)
+	kind := nondetChoice("error-kind", 14)
 	var ret error
 	switch kind {
 	case 0:
@@ -55,6 +55,12 @@ func VerifC05_e1_do() {
 		ret = &svc.CustomErr{Name: "weird", Code: code}
 	case 10:
 		ret = &svc.CustomErr{Name: "locked", Code: code, Detail: detail}
+	case 11: // errors whose flags are fixed in the design (no HTTP response declared: default mapping)
+		ret = svc.MakeSlow(errors.New(msg))
+	case 12:
+		ret = svc.MakeBusy(errors.New(msg))
+	case 13:
+		ret = svc.MakeDown(errors.New(msg))
 	case 9: // declared service error carrying flags
 		e := svc.MakeNotFound(errors.New(msg))
 		e.Timeout, e.Temporary, e.Fault = to, te, fa
@@ -99,6 +105,12 @@ func VerifC05_e1_do() {
 		}
 	case 6, 8:
 		wantStatus = http.StatusInternalServerError
+	case 11: // Timeout()
+		wantStatus = http.StatusRequestTimeout
+	case 12: // Temporary()
+		wantStatus = http.StatusServiceUnavailable
+	case 13: // Temporary() + Fault()
+		wantStatus = http.StatusInternalServerError
 	}
 	verifObserve("status", w.status)
 	verifAssert("status-as-designed-or-default-mapping", w.status == wantStatus)
@@ -108,6 +120,12 @@ func VerifC05_e1_do() {
 		verifAssert("undeclared:default-error-body", ok)
 		if ok {
 			switch kind {
+			case 11:
+				verifAssert("designed-flags:timeout-only", er.Timeout && !er.Temporary && !er.Fault && er.Name == "slow")
+			case 12:
+				verifAssert("designed-flags:temporary-only", !er.Timeout && er.Temporary && !er.Fault && er.Name == "busy")
+			case 13:
+				verifAssert("designed-flags:temporary-fault", !er.Timeout && er.Temporary && er.Fault && er.Name == "down")
 			case 5:
 				verifAssert("undeclared:service-error-fields-copied", er.Message == msg && er.Timeout == to && er.Temporary == te && er.Fault == fa && strings.HasPrefix(er.Name, "other_"))
 			default:
